@@ -58,6 +58,15 @@ def instances(tier):
             for dense in (True, False):
                 out.append(dict(id="event-fault-%s-k%02d-%s" % (fam, k, "dense" if dense else "nodense"), family=fam, N=2, where="event", k=k, exc="RuntimeError",
                                 dense=dense, budget=b))
+    # the rhs leaves its domain: it RETURNS NaN at its k-th evaluation (no exception).  Garbage in, garbage out for that run - but
+    # reset() must still restore a system that reproduces a fresh one (nothing non-finite may survive inside the integrator object)
+    for fam in ("euler", "rk4", "sympl_euler"):
+        for k in ((2,) if quick else (1, 2, 3, 5)):
+            out.append(dict(id="rhs-nan-%s-k%02d" % (fam, k), family=fam, N=2, where="nan", k=k, exc="RuntimeError", budget=b))
+    # the stage solver diverges (non-finite iterate, success False) at its k-th solve; every solve started from a finite guess succeeds
+    for fam in ("backward_euler",) if quick else ("backward_euler", "implicit_midpoint"):
+        for k in ((0, 1) if quick else (0, 1, 2)):
+            out.append(dict(id="solver-diverges-%s-k%d" % (fam, k), family=fam, N=2, where="diverge", k=k, exc="RuntimeError", budget=b))
     if not quick:
         for fam in ("euler", "rk4", "sympl_euler"):
             for k in (2, 3, 5):
@@ -130,6 +139,8 @@ def scenario(c, inst):
     if inst["where"] == "rhs":
         rhsA.fault_at = inst["k"]
         rhsA.fault_exc = exc
+    if inst["where"] == "nan":
+        rhsA.nan_at = inst["k"]
 
     def faulty_cb(system):
         cbstate["n"] += 1
@@ -143,8 +154,23 @@ def scenario(c, inst):
     if kind == "adaptive":
         # the twin and the faulting system must see the same controller verdicts: share the corr symbols by name
         pass
+    if inst["where"] == "diverge":
+        return _diverge(c, inst, A, logA, kind, cap, t0, tf)
     with spans.stubs_for(c, inst, logA["root"]):
         st, r = _run_catching(A.integrate, callback=[faulty_cb, spans.cap_callback(c, cap, kind)])
+        if inst["where"] == "nan":
+            if len(rhsA.calls) <= inst["k"]:
+                c.note("outcome", "run ended before the NaN evaluation")
+                return
+            c.case()
+            rhsA.nan_at = None
+            st4, r4 = run(A.reset)
+            c.check("c12.reset_runs", st4 == "ok", info=repr(r4))
+            if st4 == "ok":
+                st5, r5 = run(A.integrate, callback=[spans.cap_callback(c, cap, kind)])
+                c.check("c12.run_after_nan_run_and_reset_equals_fresh_run", st5 == "ok" and len(A.t) == nB and _rows_equal(c, A, B, min(len(A.t), nB)),
+                        info=dict(st=st5, nA=len(A.t), nB=nB, err=repr(r5)[:120] if st5 != "ok" else None))
+            return
         fired = (inst["where"] == "rhs" and len(rhsA.calls) > inst["k"]) or (inst["where"] == "callback" and cbstate["n"] >= inst["k"])
         if not fired:
             c.note("outcome", "run ended before the crash point")
@@ -224,6 +250,11 @@ def scenario(c, inst):
             if pieces == len(A.t) - 1 and pieces > 0:
                 c.check("c12.resume_dense_output_piece_end_times_are_recorded_times",
                         c.all([c.eq(step_order(sol.t_eval)[i], A.t[i + 1]) for i in range(pieces)]))
+            if pieces == len(A.t) - 1 and pieces > 0:
+                # every piece of the resumed run interpolates the recorded states with the slopes f(t_i, y_i) - for every family (the
+                # rhs is a congruent uninterpreted function: a slope cached from an abandoned attempt is a different term)
+                from .c06_dense import piece_checks
+                piece_checks(c, "c12.resume.dense", A, cls(c, shape, name="f", mode="uf"), backward)
             if same and pieces == len(A.t) - 1 == len(B.sol.t_eval) and len(A.t) == nB:
                 # every piece of the resumed run equals the piece of the uninterrupted run (values and end slopes: no stale cached slopes)
                 ok = []
@@ -248,6 +279,38 @@ def scenario(c, inst):
                 st5, r5 = run(A.integrate, callback=[spans.cap_callback(c, cap, kind)])
                 c.check("c12.run_after_reset_equals_fresh_run", st5 == "ok" and len(A.t) == nB and _rows_equal(c, A, B, min(len(A.t), nB)),
                         info=dict(st=st5, nA=len(A.t), nB=nB))
+
+
+def _diverge(c, inst, A, logA, kind, cap, t0, tf):
+    """the k-th stage solve diverges; afterwards every solve started from a finite guess succeeds.  Either the call recovers by
+    retrying, or it raises the failure error - and then a second integrate() must continue to the target."""
+    from desolver.exception_types import FailedIntegration
+    s = 1 if bool(tf - t0 > 0) else -1
+    with spans.stubs_for(c, dict(inst, root_diverge_at=inst["k"]), logA["root"]):
+        st, r = _run_catching(A.integrate, callback=[spans.cap_callback(c, cap + 2, kind)])
+        if len(logA["root"]) <= inst["k"]:
+            c.note("outcome", "run ended before the diverging solve")
+            return
+        c.case()
+        finite = all(not (isinstance(v, float) and v != v) for row in A.y for v in flat(c, row))
+        c.check("c12.diverge.no_nonfinite_state_recorded", finite)
+        if st != "ok":
+            cause = getattr(r, "__cause__", None)
+            if isinstance(cause, StepCap):
+                return
+            c.check("c12.diverge.raises_FailedIntegration", st == "exc" and isinstance(r, FailedIntegration), info=repr(r)[:120])
+            c.check("c12.diverge.status_reports_failure", not A.success)
+            c.check("c12.diverge.prefix_monotone", c.all([c.lt(0, s * (A.t[i + 1] - A.t[i])) for i in range(len(A.t) - 1)]))
+            st, r = _run_catching(A.integrate, callback=[spans.cap_callback(c, cap + 2, kind)])
+            if st != "ok" and isinstance(getattr(r, "__cause__", None), StepCap):
+                return
+            c.check("c12.diverge.second_call_continues_to_target", st == "ok", info=repr(r)[:160] + " / " + repr(getattr(r, "__cause__", None))[:160])
+            if st != "ok":
+                return
+        c.check("c12.diverge.monotone_to_target", c.all([c.lt(0, s * (A.t[i + 1] - A.t[i])) for i in range(len(A.t) - 1)] +
+                                                        [c.le(absval(c, A.t[-1] - tf), 64 * spans.EPS64 * 64)]))
+        bad = [e for e in logA["root"] if e.get("bad_guess")]
+        c.check("c12.diverge.no_solve_started_from_nonfinite_guess", not bad, info=dict(solves=len(logA["root"]), from_nonfinite_guess=len(bad)))
 
 
 def _event_fault(c, inst):
